@@ -32,6 +32,38 @@ of the harness:
 Every scenario cleans up after itself: scratch tables are dropped on both
 database aliases, ``Version``/``Evolution``/content type rows that were added
 are deleted, models and apps are unregistered.
+
+Public API
+==========
+
+``suite_C11 / suite_C14 / suite_C15 / suite_C16 (tier='quick'|'thorough',
+seed=0)`` return the report dict described in the task (plus the extra keys
+``failure_counts`` {clause: number of failing evaluations, " (UNKNOWN)"
+appended when no KNOWN entry matches}, ``skipped`` {phase/exception class:
+count of scenarios the library rejected}, ``elapsed``);
+``replay_C11 / ... (inputs)`` re-run one scenario from a failure's ``inputs``.
+``KNOWN`` lists the genuine defects of the current tree that the suites hit;
+each entry has ``property``, ``clause``, ``match`` (prose), ``predicate``
+(the executable form of ``match``: ``predicate(inputs, observed) -> bool``),
+``what`` and a concrete witness ``inputs``.
+
+Clauses
+=======
+
+C11  ref-exists / ref-target (a relation of the final signature names no /
+     the wrong model although its target was never deleted), rename-accepted
+     (a single rename of an existing model/field/label crashes instead of
+     being performed or rejected), db-fk-dangling, db-fk-target,
+     db-table-missing, db-fk-validates (database side; references to tables
+     of explicitly deleted models are exempt).
+C15  purge-runs / no-purge-runs / delete-runs, drops-owned-tables,
+     drops-nothing-else, other-tables-unchanged (schema text, indexes, rows),
+     sig-entries-removed, other-sig-unchanged, no-purge-keeps-tables,
+     no-purge-keeps-sig.
+C14  preview-statements-in-order, preview-parameters-substituted,
+     hash-seed-deterministic.
+C16  install-routed, install-sig-routed, evolve-succeeds,
+     other-db-untouched, schema-matches-routing, sig-matches-routing.
 """
 
 from __future__ import print_function, unicode_literals
@@ -783,12 +815,16 @@ class Tracker(object):
                 result.append(['RenameAppLabel', label, label[:-1], {}])
 
             if len(models_map) > 1:
+                # (a new label that is already used in the signature is not
+                # a valid input: two apps cannot share a label)
                 first = list(models_map)[0]
                 last = list(models_map)[-1]
-                result.append(['RenameAppLabel', label, label + 'y',
-                               {'model_names': [first]}])
 
-                if rich:
+                if label + 'y' not in self.apps:
+                    result.append(['RenameAppLabel', label, label + 'y',
+                                   {'model_names': [first]}])
+
+                if rich and label + 'z' not in self.apps:
                     result.append(['RenameAppLabel', label, label + 'z',
                                    {'model_names': [last]}])
 
@@ -1114,14 +1150,6 @@ def _c11_sig_clauses(tracker, final):
                    for app_id, models_map in final.items()
                    for model_name in models_map)
 
-    # Expected name of every live model.
-    for label, models_map in tracker.apps.items():
-        for model_name, entry in models_map.items():
-            if '%s.%s' % (label, model_name) not in existing:
-                failures.append(('model-present', {
-                    'missing': '%s.%s' % (label, model_name),
-                    'signature_models': sorted(existing)}))
-
     seen_fields = set()
 
     for app_id, models_map in final.items():
@@ -1376,6 +1404,7 @@ def _run_suite(prop, scenarios, runner, describe, tier, exhaustive, rule,
     failures = []
     failure_counts = OrderedDict()
     skipped = OrderedDict()
+    skipped_examples = OrderedDict()
     samples = []
     truncated = False
 
@@ -1392,6 +1421,11 @@ def _run_suite(prop, scenarios, runner, describe, tier, exhaustive, rule,
             key = '%s/%s' % (outcome['error'].get('phase'),
                              outcome['error'].get('class'))
             skipped[key] = skipped.get(key, 0) + 1
+
+            if key not in skipped_examples:
+                skipped_examples[key] = {
+                    'inputs': _json(inputs),
+                    'message': outcome['error'].get('message')}
 
             if outcome.get('error_is_failure'):
                 pass
@@ -1431,6 +1465,7 @@ def _run_suite(prop, scenarios, runner, describe, tier, exhaustive, rule,
         'failures': failures,
         'failure_counts': failure_counts,
         'skipped': skipped,
+        'skipped_examples': skipped_examples,
         'samples': samples,
         'exhaustive': bool(exhaustive and not truncated),
         'truncated_by_time_budget': truncated,
@@ -1479,6 +1514,7 @@ def replay_C11(inputs):
     outcome = c11_run(inputs['family'], inputs['steps'],
                       inputs.get('mode', 'separate'))
     return {'reproduced': bool(outcome['failures']),
+            'clauses': sorted(set(item[0] for item in outcome['failures'])),
             'error': outcome['error'],
             'failures': _json(outcome['failures'])}
 
@@ -1773,7 +1809,7 @@ def _c15_diff_sig(before, after, removed_apps=(), removed_models=()):
 C15_PENDING = ['AddField', 'Tag', 'extra', 'IntegerField', {'null': True}]
 
 
-def c15_run_purge(labels, removed, flow, pending=False):
+def c15_run_purge(labels, removed, flow, pending=False, variant=None):
     """Stale-app scenario.
 
     Args:
@@ -1788,12 +1824,15 @@ def c15_run_purge(labels, removed, flow, pending=False):
             (C15_PENDING, a new nullable column on shop.Tag), so that a new
             project version IS saved.  The table and signature entry of
             shop are then exempt from the "unchanged" clauses.
+        variant: None or 'reversed' (models of every app declared in
+            reverse order).
     """
     from django_evolution.evolve import Evolver
 
     psetup()
     result = {'error': None, 'failures': [], 'nontrivial': False}
-    apps_spec = OrderedDict((label, C15_POOL[label]) for label in labels)
+    pool = _c15_variant(variant) or C15_POOL
+    apps_spec = OrderedDict((label, pool[label]) for label in labels)
     kept = [label for label in labels if label not in removed]
     pcleanup(labels)
 
@@ -1812,12 +1851,12 @@ def c15_run_purge(labels, removed, flow, pending=False):
 
                 # The new code base: only the kept apps exist.
                 new_spec = OrderedDict(
-                    (label, C15_POOL[label]) for label in kept)
+                    (label, pool[label]) for label in kept)
                 pending = bool(pending and 'shop' in kept)
 
                 if pending:
                     new_spec['shop'] = apply_descs_to_spec(
-                        C15_POOL['shop'], [C15_PENDING], 'shop')
+                        pool['shop'], [C15_PENDING], 'shop')
                     set_evolutions('shop', [
                         ('add_extra', [make_mutation(C15_PENDING)])])
 
@@ -2125,7 +2164,13 @@ def _c15_scenarios(tier, seed):
                 flows += [['api-purge-app', label] for label in removed]
 
             for flow in flows:
-                scenarios.append(('purge', labels, removed, flow, False))
+                scenarios.append(('purge', labels, removed, flow, False,
+                                  None))
+
+            if tier != 'quick':
+                for flow in ('command-purge', 'api-purge'):
+                    scenarios.append(('purge', labels, removed, flow, False,
+                                      'reversed'))
 
             if 'shop' not in removed and (tier != 'quick' or
                                           len(labels) in (2, 4)):
@@ -2134,7 +2179,8 @@ def _c15_scenarios(tier, seed):
                              if tier == 'quick' else
                              ['command-nopurge', 'api-nopurge',
                               'api-purge', 'command-purge']):
-                    scenarios.append(('purge', labels, removed, flow, True))
+                    scenarios.append(('purge', labels, removed, flow, True,
+                                      None))
 
     for labels in C15_PROJECTS:
         if tier == 'quick' and len(labels) not in (2, 4):
@@ -2205,7 +2251,7 @@ def _c15_dispatch(scenario):
 
     if kind == 'purge':
         return c15_run_purge(scenario[1], scenario[2], scenario[3],
-                             pending=scenario[4])
+                             pending=scenario[4], variant=scenario[5])
 
     if kind == 'delete':
         return c15_run_delete(scenario[1], scenario[2], scenario[3],
@@ -2219,7 +2265,8 @@ def _c15_describe(scenario):
 
     if kind == 'purge':
         return {'kind': kind, 'apps': scenario[1], 'removed': scenario[2],
-                'flow': scenario[3], 'pending': scenario[4]}
+                'flow': scenario[3], 'pending': scenario[4],
+                'variant': scenario[5]}
 
     if kind == 'delete':
         return {'kind': kind, 'apps': scenario[1], 'app': scenario[2],
@@ -2244,7 +2291,7 @@ def suite_C15(tier='quick', seed=0):
         'only) as Evolver.queue_purge_app() for each single stale app; '
         'where the app shop stays installed the purge / no-purge runs are '
         'repeated with a pending evolution of shop in the same run (so '
-        'that a new project version is really saved); '
+        'that a new project version is really saved)%s; '
         '(2) delete: every DeleteModel/DeleteApplication of every app of '
         '%s, in declared and reversed model order plus a project with an '
         'explicit through model, through an AppMutator on real tables; '
@@ -2252,6 +2299,8 @@ def suite_C15(tier='quick', seed=0):
         'Exhaustive over that scope (no sampling). Every scenario that '
         'gets as far as the purge/delete request is non-trivial.'
         % (', as Evolver without purge tasks' if tier != 'quick' else '',
+           '' if tier == 'quick' else ' and both purge flows once more '
+           'with every app\'s models declared in reverse order',
            'the 2- and 4-app projects' if tier == 'quick'
            else 'all projects', 3 if tier == 'quick' else 9))
 
@@ -2267,7 +2316,8 @@ def replay_C15(inputs):
         outcome = c15_run_purge(inputs['apps'], inputs['removed'],
                                 tuple(flow) if isinstance(flow, list)
                                 else flow,
-                                pending=inputs.get('pending', False))
+                                pending=inputs.get('pending', False),
+                                variant=inputs.get('variant'))
     elif kind == 'delete':
         outcome = c15_run_delete(inputs['apps'], inputs['app'],
                                  inputs['mutation'],
@@ -2276,6 +2326,7 @@ def replay_C15(inputs):
         outcome = c15_run_evolve_delete(inputs['apps'], inputs['deletions'])
 
     return {'reproduced': bool(outcome['failures']),
+            'clauses': sorted(set(item[0] for item in outcome['failures'])),
             'error': outcome['error'],
             'failures': _json(outcome['failures'])}
 
@@ -2823,9 +2874,10 @@ def _c16_scenarios(tier, seed):
         exhaustive = False
     else:
         for first, second in pairs:
-            add(two, [[['e1', [first, second]]],
-                      [['e1', [second]], ['e2', [first]]]],
+            add(two, [[['e1', [first, second]]]],
                 [assignments2[1], assignments2[2]], orders)
+            add(two, [[['e1', [second]], ['e2', [first]]]],
+                [assignments2[1], assignments2[2]], [orders[1]])
 
         for first, second in rng.sample(pairs, 12):
             add(two, [[['e1', [first, second]]]],
@@ -2886,8 +2938,9 @@ def suite_C16(tier='quick', seed=0):
            'real splits of 2 models, plus DeleteApplication, same-side '
            'controls and 4 pairs handed to EvolveAppTask(evolutions=...) '
            '(flow "task").' if tier == 'quick' else
-           'thorough: ALL 64 pairs x {one evolution, two evolutions} x the '
-           'two real splits x both database orders, DeleteApplication for '
+           'thorough: ALL 64 pairs x the two real splits, as one evolution '
+           '(both database orders) and as two evolutions (db_multi first), '
+           'DeleteApplication for '
            'all 4 assignments, 12 same-side controls, ALL 64 pairs x the '
            'two real splits through EvolveAppTask(evolutions=...) (flow '
            '"task") and 40 random 3-model scenarios (3 of the 6 real '
@@ -2902,6 +2955,7 @@ def replay_C16(inputs):
                       inputs['evolutions'], inputs['order'],
                       inputs.get('flow', 'command'))
     return {'reproduced': bool(outcome['failures']),
+            'clauses': sorted(set(item[0] for item in outcome['failures'])),
             'error': outcome['error'],
             'failures': _json(outcome['failures'])}
 
@@ -2919,6 +2973,18 @@ C14_MODELS = OrderedDict([
                 ('code', _c(8)),
                 ('rank', ('IntegerField', {'default': 0})),
                 ('obsolete', ('IntegerField', {'null': True})),
+            ]),
+        }),
+        # Only Meta changes touch Sheet (no table rebuild in the same run:
+        # on the current tree a rebuild plus a unique_together/
+        # index_together change of the same table generates SQL that fails
+        # half way, which would hide everything after the failure).
+        ('Sheet', {
+            'fields': OrderedDict([
+                ('title', _c(20)),
+                ('pages', ('IntegerField', {'null': True})),
+                ('code', _c(8)),
+                ('rank', ('IntegerField', {'default': 0})),
             ]),
             'meta': {'unique_together': [['pages', 'code']],
                      'index_together': [['title', 'pages']]},
@@ -2950,12 +3016,15 @@ C14_MODELS = OrderedDict([
 # valid evolution history.
 C14_ATOMS = OrderedDict([
     ('pva', OrderedDict([
-        ('ut3', [['ChangeMeta', 'Doc', 'unique_together',
+        ('ut3', [['ChangeMeta', 'Sheet', 'unique_together',
                   [['title', 'pages'], ['title', 'code'],
                    ['code', 'rank']]]]),
-        ('it3', [['ChangeMeta', 'Doc', 'index_together',
+        ('it3', [['ChangeMeta', 'Sheet', 'index_together',
                   [['title', 'code'], ['pages', 'rank'],
                    ['code', 'pages']]]]),
+        # the same on a table that other atoms rebuild in the same run
+        ('ut2_doc', [['ChangeMeta', 'Doc', 'unique_together',
+                      [['title', 'pages'], ['code', 'rank']]]]),
         ('add_quote', [['AddField', 'Doc', 'summary', 'CharField',
                         {'max_length': 50, 'initial': "it's"}]]),
         ('add_percent', [['AddField', 'Doc', 'ratio', 'CharField',
@@ -3333,7 +3402,7 @@ def _c14_scenarios(tier, seed):
 
         return evolutions
 
-    count = 8 if tier == 'quick' else 60
+    count = 8 if tier == 'quick' else 220
 
     for i in range(count):
         history = random_history(names_a, rng.randint(1, 3))
@@ -3341,7 +3410,7 @@ def _c14_scenarios(tier, seed):
         scenarios.append(one_app('pva', history, start))
 
     # two apps, with and without declared evolution dependencies
-    count = 6 if tier == 'quick' else 40
+    count = 6 if tier == 'quick' else 120
 
     for i in range(count):
         history_a = random_history(names_a, rng.randint(1, 2))
@@ -3432,7 +3501,7 @@ def suite_C14(tier='quick', seed=0):
 
     rule = (
         'Pending upgrades over the fixed models C14_MODELS (apps pva [Doc, '
-        'Tag, Misc, Old, Extra] and pvb [Memo -> pva.Doc]): histories of 1-3 '
+        'Sheet, Tag, Misc, Old, Extra] and pvb [Memo -> pva.Doc]): histories of 1-3 '
         'evolutions of 1-4 "atoms" each, drawn without replacement from '
         'C14_ATOMS (ChangeMeta unique_together/index_together with 3 '
         'tuples, AddField with quote/percent/date/bool/int initial values, '
@@ -3453,7 +3522,7 @@ def suite_C14(tier='quick', seed=0):
            '(every third from a later start version) + 6 two-app upgrades '
            '(no / forward / backward cross-app evolution dependency).'
            if tier == 'quick' else
-           'thorough: every atom alone + 60 random one-app + 40 random '
+           'thorough: every atom alone + 220 random one-app + 120 random '
            'two-app histories.', seeds))
 
     report = _run_suite('C14', scenarios, runner, describe, tier, False,
@@ -3712,10 +3781,10 @@ KNOWN = [
         'clause': 'hash-seed-deterministic',
         'match': 'a pending ChangeMeta(unique_together | index_together) '
                  'that adds (or removes) two or more tuples (atoms ut3 / '
-                 'it3); outputs `evolve --sql` and `evolve --hint --sql`',
+                 'it3 / ut2_doc); outputs `evolve --sql` and `evolve --hint --sql`',
         'predicate': lambda inputs, observed: (
             observed.get('output') in ('sql', 'hint_sql') and
-            bool(_c14_atoms(inputs) & set(['ut3', 'it3']))),
+            bool(_c14_atoms(inputs) & set(['ut3', 'it3', 'ut2_doc']))),
         'what': 'BaseEvolutionOperations.change_meta_unique_together / '
                 'change_meta_index_together turn the old and new values '
                 'into Python sets and emit DROP/CREATE INDEX statements '
